@@ -35,7 +35,7 @@ ASSUMPTIONS = ["metric data objects built directly (ComponentMetricsData); times
 
 def budget(tier: str) -> dict[str, Any]:
     if tier == "quick":
-        return {"shards": 8, "cases": 2500}
+        return {"shards": 8, "cases": 12500}
     return {"shards": 32, "cases": 60000, "hashseeds": [0, 1, 2, 3]}
 
 
